@@ -228,7 +228,11 @@ void h_waiters(void)
     if (nw >= 1) cmi_event_add_waiter(GH[tgt].h, w1);
     if (nw >= 2) cmi_event_add_waiter(GH[tgt].h, w2);
     const uint64_t cnt0 = cmb_event_queue_count();
+#ifdef CMV_WCANCEL
+    const bool do_cancel = CMV_WCANCEL;      /* split by case: each half is its own group */
+#else
     const bool do_cancel = nondet_bool();
+#endif
     if (do_cancel) {
         OBT("C04-O5", cmb_event_cancel(GH[tgt].h), "cancel of a pending event succeeds");
     } else {
@@ -241,12 +245,15 @@ void h_waiters(void)
     OBT("C04-O5", cmb_event_pattern_count(wakeup_event_event, CMB_ANY_SUBJECT, CMB_ANY_OBJECT) == nw && cmb_event_queue_count() == cnt0 - 1u + nw, "nobody else is woken, nothing else is scheduled");
     const uint64_t hw = cmb_event_pattern_find(wakeup_event_event, w1, CMB_ANY_OBJECT);
     OBT("C04-O5", nw == 0 || (cmb_event_time(hw) == cmb_time() && cmb_event_priority(hw) == w1->priority), "the wake-up is scheduled at the current time with the waiter's priority");
-    /* a waiter that leaves after the event is gone: its wake-up is stopped, nobody else's */
+    /* a waiter that leaves after the event is gone: its wake-up is stopped, nobody else's
+     * (own thorough group: the pattern cancel inside remove_waiter is as costly as C01.O3.api.pattern_cancel) */
+#ifdef CMV_WLEAVE
     if (nw >= 1) {
         OBT("C04-O5", !cmi_event_remove_waiter(GH[tgt].h, w1) && cmb_event_pattern_count(wakeup_event_event, w1, CMB_ANY_OBJECT) == 0u
                       && cmb_event_pattern_count(wakeup_event_event, w2, (void *)want) == (nw >= 2 ? 1u : 0u),
             "remove_waiter for an event that has already executed / been cancelled stops the wake-up on its way to that process and nothing else");
     }
+#endif
     CANARY("event waiters: end reachable");
 }
 #endif
